@@ -87,6 +87,10 @@ pub fn one_case(rng: &mut Rng, o: &GenOpts, prop: &str) -> CaseOut {
         let p2 = vec![other.message.clone()];
         let _ = trap::catch(|| with_record(&other, &p2, |rec| enc.encode(&mut failing, rec)));
     }
+    if rng.chance(1, 8) {
+        // ... nor may a record whose message panics while being formatted
+        encode_a_record_that_panics(&enc, &ctx);
+    }
     // now and then formatting the message itself encodes another record through the same encoder
     let nesting = rng.chance(1, 10);
     let mut inner_ctx = ctx.clone();
